@@ -269,7 +269,11 @@ func solveOne(i int, o *Obligation, cfg RunConfig) {
 	}
 	q = "; obligation: " + o.Name + "\n; " + strings.ReplaceAll(o.Desc, "\n", " ") + "\n" + q
 	os.WriteFile(file, []byte(q), 0o644)
-	res, _ := raceSolvers(file, cfg.Timeout, cfg.Solvers)
+	budget := cfg.Timeout
+	if o.Cover && budget > 4*time.Second {
+		budget = 4 * time.Second // a contradiction shows up at once; 'unknown' is the usual answer
+	}
+	res, _ := raceSolvers(file, budget, cfg.Solvers)
 	if res.Verdict != "unsat" && res.Verdict != "sat" && !o.Cover && !o.NoRetry {
 		// one retry with a much longer budget: a loaded machine must not turn
 		// a slow proof into an alarm
